@@ -332,28 +332,39 @@ class Derivation(Constraint):
         sustain_count = block.sustain_count(f)
         window = f.levels[0].window
         t = 0
-        delta = window.start_delta * sustain_count
         for n in range(0, trial_count, sustain_count):
             if not f.applies_to_trial(n//sustain_count + 1):
                 continue
             num_levels = len(f.levels)
-            get_trial_size = lambda x: trial_size if x < block.grid_variables() else len(block.decode_variable(x+1)[0].levels)
 
             # Only keep clauses where all `BeforeStarts` apply and all indices are in range:
             ands = []
             for l in self.dependent_idxs:
                 vars = cast(List[int], [])
                 ok = True
-                for x in l:
+                for pos, x in enumerate(l):
                     if isinstance(x, BeforeStart):
                         if x.ready_at <= n:
                             ok = False
                             break
                     else:
-                        new_x = x + ((t + delta) * window.stride * get_trial_size(x) + 1)
-                        if new_x <= 0:
+                        # Position within the window (oldest first); `shift_window` moved the index by that
+                        # many trials of grid variables, which we undo to find the level's first variable
+                        i = pos % window.width
+                        base = x - i * sustain_count * trial_size
+                        dep_trial = n - (window.width - 1 - i) * sustain_count
+                        if dep_trial < 0:
                             ok = False
                             break
+                        dep_f = window.factors[pos // window.width]
+                        if not dep_f.has_complex_window:
+                            new_x = base + dep_trial * trial_size + 1
+                        else:
+                            # A dependency with a complex window has variables only in the trials it applies to
+                            if not dep_f.applies_to_trial(dep_trial // block.sustain_count(dep_f) + 1):
+                                ok = False
+                                break
+                            new_x = base + len(dep_f.levels) * block._get_previous_trials_variable_count(dep_f, dep_trial + 1) + 1
                         vars.append(new_x)
                 if ok:
                     ands.append(And(vars))
